@@ -799,6 +799,11 @@ Proof.
     destruct (fire_outcome _ _ _ _ H) as (a & e0 & O).
     destruct (acted_final _ _ _ _ _ Hinv O) as [A B].
     repeat split; try apply A; auto. rewrite (fire_final_ids _ _ _ _ Hf H). apply incl_refl.
+  - (* the resync worker: pods only disappear *)
+    assert (R : forall t0 i0 l, incl (pod_ids (remove_pod t0 i0 l)) (pod_ids l)).
+    { intros t0 i0 l x Hx. unfold pod_ids, remove_pod in *. apply in_map_iff in Hx. destruct Hx as (p & <- & Hp).
+      apply filter_In in Hp. apply in_map_iff. exists p. tauto. }
+    destruct (find_pod t i (w_pods w)); [destruct race|]; inversion H; subst; clear H; cbn; repeat split; auto using incl_refl.
 Qed.
 
 Lemma run_cons : forall w o ops, run w (o :: ops) = run (fst (fst (step w o))) ops.
@@ -870,6 +875,7 @@ Proof.
   - destruct (fire_outcome _ _ _ _ H) as (a & e0 & O).
     pose proof (version_step_gen _ _ _ _ _ O) as V. unfold acted in O.
     destruct (oc_api _ _ _ _ _ _ _ O) as [E|[E|[_ E]]]; rewrite E; cbn; lia.
+  - destruct (find_pod t i (w_pods w)); [destruct race|]; inversion H; subst; cbn; lia.
 Qed.
 
 Theorem version_monotone : forall ops w,
@@ -1134,6 +1140,7 @@ Proof.
       unfold phase_agree in *; cbn; split; auto using allowed_refl.
   - destruct Hsj.
   - destruct (fire_outcome _ _ _ _ H) as (a & e0 & O). exact (acted_api_phase _ _ _ _ _ Hag O).
+  - destruct (find_pod t i (w_pods w)); [destruct race|]; inversion H; subst; clear H; unfold phase_agree in *; cbn; split; auto using allowed_refl.
 Qed.
 
 (* every consecutive pair of a phase sequence is a transition of the relation *)
